@@ -510,4 +510,5 @@ func run(c *vm.Ctx) {
 		libraryClientAgainstPeer(c, pr)
 		libraryServerAgainstPeer(c, pr)
 	}
+	runMore(c)
 }
